@@ -14,8 +14,9 @@ from fractions import Fraction as F
 from vcheck import fmt_q, fmt_vec, fmt_ivec, fmt_crs, parse_out_crs, parse_out_vec
 import gen
 from props.common import diff_run, oracle_run
+from props import blockvals as bv
 
-DRIVERS = ["matops"]
+DRIVERS = ["matops", "matops_block"]
 MODEL = "matops"
 ASSUMPTIONS = [
     "the builtin backend instantiated with the exact rational vq::Q executes the same template code as with double",
@@ -24,16 +25,20 @@ ASSUMPTIONS = [
     "diagonal(): rows without a diagonal entry leave the output cell as allocated (0 for vq::Q); only tested, not specified",
     "adapter::block_matrix: specified (oracle o.block / o.unblock) for rows sorted by column without duplicates and sizes divisible by the block size; other inputs are compared with the model only",
     "pointwise_matrix: the block-maximum oracle is applied to row-sorted inputs with sizes divisible by the block size (the domain of theorem C08_pointwise_block_maximum); unsorted inputs are compared with the model only",
+    "block values: static_matrix<vq::Q,b,b>, b = 2, 3 (bm.* ops); math::norm of a block (Frobenius) goes through the pseudo square root shared by vq::Q and QcS; diagonal(invert)/spectral_radius<true> are only run on matrices whose diagonal blocks are invertible (the C++ asserts otherwise)",
+    "complex values: std::complex<double> on small dyadic Gaussian rationals (every + - * exact in binary64) vs the Coq instances CqS / ComplexS QcS",
 ]
 TRUSTED_BASE = [
-    "complex cases: std::complex<double> on small integers (exact) vs the Coq instance CqS (pairs of Qc)",
+    "complex cases: std::complex<double> on small integers / dyadics (exact) vs the Coq instances CqS (c.*) and ComplexS QcS (cm.*)",
+    "block cases: harness/drv_matops_block.cpp, ocaml/matops/ops_matops_block.ml, tools/props/blockvals.py (python expansion of block matrices to scalar matrices for the expanded oracles)",
 ]
 RULE = ("cases derived from VERIF_SEED by tools/props/C08.py (exhaustive small patterns x value palette, random, "
         "block-structured); distinct = distinct (op, payload); non-trivial = implementation output contains a "
         "non-zero value and is not an exception")
 
 PAL = [F(1), F(-1), F(2), F(1, 2), F(-3), F(3, 2), F(-1, 2), F(5), F(-2), F(1, 3)]
-NT_OPS = ("product", "specrad")        # ops whose first/second token is the thread count
+NT_OPS = ("product", "specrad", "bm.product", "bm.specrad", "cm.product")        # ops that carry the thread count
+BSTAT = {}
 
 
 def crs(n, m, rows): return fmt_crs(n, m, rows)
@@ -213,7 +218,92 @@ def base_cases(tier, seed):
             add("c.transpose", ccrs(cn, ck, CA))
             add("c.saad", ccrs(cn, ck, CA), ccrs(ck, cm, CB), r.choice([0, 1]))
             add("c.sum", "%d %d" % cval(), ccrs(cn, ck, CA), "%d %d" % cval(), ccrs(cn, ck, CA2), r.choice([0, 1]))
+    block_cases(r, quick, add)
     return out
+
+
+def block_cases(r, quick, add):
+    """block-valued (bm.*) and complex-valued (cm.*) cases of harness/drv_matops_block.cpp"""
+    mats = []
+    def bcoefblk(b):
+        k, v = bv.bcoef(r, b)
+        return bv.bl_id(b, v) if k == "s" else v
+    # ---- all small block patterns (2x2 block matrices, pairs for the product) with non-commuting blocks
+    for b in (2, 3):
+        for pa in range(16):
+            for pb in ([r.randrange(16) for _ in range(3 if quick else 8)] + [15]):
+                A = [[(j, bv.rblock(r, b)) for j in range(2) if (pa >> (i * 2 + j)) & 1] for i in range(2)]
+                B = [[(j, bv.rblock(r, b)) for j in range(2) if (pb >> (i * 2 + j)) & 1] for i in range(2)]
+                if r.random() < 0.3: A = [list(reversed(rw)) for rw in A]
+                mats.append((A, b)); mats.append((B, b))
+                a_, b_ = bv.fmt_bcrs(2, 2, A), bv.fmt_bcrs(2, 2, B)
+                add("bm.saad", b, a_, b_, r.choice([0, 1])); add("bm.rmerge", b, a_, bv.fmt_bcrs(2, 2, bv.sorted_distinct(B, b)))
+                add("bm.transpose", b, a_)
+                add("bm.sum", b, bv.fmt_blk(bcoefblk(b)), a_, bv.fmt_blk(bcoefblk(b)), b_, r.choice([0, 1]))
+    # ---- random
+    N = 90 if quick else 900
+    for it in range(N):
+        b = r.choice([2, 2, 3])
+        big = (it % 10 == 0)
+        n = r.randint(6, 12 if quick else 30) if big else r.choice([0, 1, 1, 2, 3, 4, 5])
+        k = max(0, n + r.choice([0, 0, -2, 3, 1]))
+        m = max(0, n + r.choice([0, 0, 2, -1]))
+        dens = r.choice([0.15, 0.3]) if big else None
+        A = bv.rbcrs(r, b, n, k, density=dens, dups=(r.random() < 0.3))
+        B = bv.rbcrs(r, b, k, m, density=dens, dups=(r.random() < 0.3))
+        A2 = bv.rbcrs(r, b, n, k, density=dens, dups=(r.random() < 0.3))
+        mats += [(A, b), (B, b)]
+        a_, b_ = bv.fmt_bcrs(n, k, A), bv.fmt_bcrs(k, m, B)
+        bs_ = bv.fmt_bcrs(k, m, bv.sorted_distinct(B, b))
+        add("bm.saad", b, a_, b_, 0); add("bm.saad", b, a_, b_, 1)
+        add("bm.rmerge", b, a_, bs_)
+        add("bm.product", b, "@NT@", a_, bs_, r.choice([0, 1]))
+        add("bm.transpose", b, a_)
+        add("bm.sum", b, bv.fmt_blk(bcoefblk(b)), a_, bv.fmt_blk(bcoefblk(b)), bv.fmt_bcrs(n, k, A2), r.choice([0, 1]))
+        if it % 17 == 3 and (n, k) != (k, m):
+            add("bm.sum", b, bv.fmt_blk(bcoefblk(b)), a_, bv.fmt_blk(bcoefblk(b)), b_, 0)
+        add("bm.scale", b, a_, fmt_q(gen.coef(r)))
+        add("bm.sort_rows", b, a_)
+        # square with invertible diagonal blocks (first AND last stored diagonal entry of every row)
+        D = bv.rbcrs(r, b, n, n, density=dens, dups=(r.random() < 0.3))
+        D2 = []
+        for i, rw in enumerate(D):
+            rw = [(c, (bv.rblock_inv(r, b) if c == i else B_)) for c, B_ in rw]
+            if not any(c == i for c, _ in rw): rw.insert(r.randint(0, len(rw)), (i, bv.rblock_inv(r, b)))
+            D2.append(rw)
+        d_ = bv.fmt_bcrs(n, n, D2)
+        add("bm.diagonal", b, d_, 0); add("bm.diagonal", b, d_, 1)
+        if r.random() < 0.3:    # zero diagonal blocks: identity when inverted
+            Dz = [[(c, (bv.bl_zero(b) if (c == i and r.random() < 0.5) else B_)) for c, B_ in rw] for i, rw in enumerate(D2)]
+            add("bm.diagonal", b, bv.fmt_bcrs(n, n, Dz), 1)
+        add("bm.specrad", b, 0, "@NT@", d_); add("bm.specrad", b, 1, "@NT@", d_)
+        add("bm.specrad", b, 0, "@NT@", a_ if n == k else d_)
+        # pointwise: norm of blocks; block_size 1 (what amgcl uses for block values) and 2
+        pbs = r.choice([1, 1, 2, 3])
+        pn, pm = r.randint(1, 4) * pbs, r.randint(1, 4) * pbs
+        if r.random() < 0.15: pn += 1
+        P = bv.rbcrs(r, b, pn, pm, sorted_rows=(r.random() < 0.8), dups=False)
+        add("bm.pointwise", b, bv.fmt_bcrs(pn, pm, P), pbs)
+    BSTAT.clear(); BSTAT.update(bv.noncommuting_fraction(r, mats))
+    # ---- complex
+    for it in range(N):
+        n = r.choice([0, 1, 1, 2, 3, 4, 5, 6]); k = max(0, n + r.choice([0, 0, -2, 2, 1])); m = max(0, n + r.choice([0, 0, 2, -1]))
+        A = bv.rccrs(r, n, k, dups=(r.random() < 0.3)); B = bv.rccrs(r, k, m, dups=(r.random() < 0.3)); A2 = bv.rccrs(r, n, k)
+        Bs = []
+        for rw in B:
+            d = {}
+            for c, z in rw: d[c] = bv.cx_add(d[c], z) if c in d else z
+            Bs.append(sorted(d.items()))
+        a_, b_, bs_ = bv.fmt_ccrs(n, k, A), bv.fmt_ccrs(k, m, B), bv.fmt_ccrs(k, m, Bs)
+        add("cm.transpose", a_)
+        add("cm.saad", a_, b_, r.choice([0, 1])); add("cm.rmerge", a_, bs_)
+        add("cm.product", "@NT@", a_, bs_, r.choice([0, 1]))
+        al, be_ = bv.ccoef(r), bv.ccoef(r)
+        cz = lambda kc: bv.fmt_cx(kc[1] if kc[0] == "c" else (kc[1], F(0)))
+        add("cm.sum", cz(al), a_, cz(be_), bv.fmt_ccrs(n, k, A2), r.choice([0, 1]))
+        sc_ = bv.ccoef(r)
+        add("cm.scale", sc_[0], a_, bv.fmt_ccoef(sc_))
+        add("cm.sort_rows", a_)
 
 
 def thread_plan(tier):
@@ -229,7 +319,7 @@ def cases(tier, seed):
         k = 0
         for idx, (op, payload) in enumerate(base):
             if op in NT_OPS:
-                if nt > 1 and op == "specrad" and idx % 3: continue
+                if nt > 1 and op in ("specrad", "bm.specrad") and idx % 3: continue
                 out.append("t%d.%d %s %s" % (nt, idx, op, payload.replace("@NT@", str(nt))))
             elif op == "specrad_power":
                 if nt == 1: out.append("t1.%d %s %s" % (idx, op, payload))
@@ -357,6 +447,123 @@ def oracle_line(line, impl_out):
     return None
 
 
+def is_block_line(l):
+    return l.split(" ", 2)[1].startswith(("bm.", "cm."))
+
+def is_scalar_multiple(B):
+    b = len(B); return all(B[i][j] == (B[0][0] if i == j else 0) for i in range(b) for j in range(b))
+
+def block_oracle_line(line, impl_out):
+    """oracle case line for a block / complex case: the scalar dense definition (existing o.* ops of ops_matops.ml)
+    applied to the EXPANDED (unblocked) inputs and the expanded output of the implementation where the operation
+    commutes with expansion, the block-level / complex specification (bm.o.*, cm.o.*) otherwise"""
+    cid, op, payload = line.split(" ", 2)
+    if impl_out is None or impl_out.startswith(("EXC", "BADCRS", "CRASH", "UNSUPPORTED")): return None
+    t = bv.Toks(payload)
+    X = lambda n, m, rows, b: fmt_crs(n * b, m * b, bv.b_expand(rows, b))
+    small = lambda *ds: all(d <= ORACLE_MAXDIM for d in ds)
+    try:
+        if op in ("bm.saad", "bm.rmerge", "bm.product"):
+            b = t.i()
+            if op == "bm.product": nt = t.i()
+            A = t.bcrs(b); B = t.bcrs(b)
+            srt = 1 if op == "bm.rmerge" else t.i()
+            if op == "bm.product" and nt > 16: srt = 1
+            C = bv.parse_out_bcrs(impl_out, b)
+            if not small(A[0] * b, A[1] * b, B[1] * b): return None
+            return "%s o.product %s %s %d %s" % (cid, X(*A, b), X(*B, b), 0, X(*C, b)), \
+                   "%s bm.o.product %d %s %s %d %s" % (cid, b, bv.fmt_bcrs(*A), bv.fmt_bcrs(*B), srt, bv.fmt_bcrs(*C))
+        if op == "bm.transpose":
+            b = t.i(); A = t.bcrs(b); C = bv.parse_out_bcrs(impl_out, b)
+            if not small(A[0] * b, A[1] * b): return None
+            # expanded rows of the transpose are not sorted inside a block column: only the dense part of o.transpose applies
+            return "%s o.unblock %s %s" % (cid, fmt_crs(A[1] * b, A[0] * b, gen_transpose_rows(bv.b_expand(A[2], b), A[1] * b)), X(*C, b)), \
+                   "%s bm.o.transpose %d %s %s" % (cid, b, bv.fmt_bcrs(*A), bv.fmt_bcrs(*C))
+        if op == "bm.sum":
+            b = t.i(); al = t.blk(b); A = t.bcrs(b); be_ = t.blk(b); B = t.bcrs(b); srt = t.i()
+            C = bv.parse_out_bcrs(impl_out, b)
+            out = ["%s bm.o.sum %d %s %s %s %s %d %s" % (cid, b, bv.fmt_blk(al), bv.fmt_bcrs(*A), bv.fmt_blk(be_), bv.fmt_bcrs(*B), srt, bv.fmt_bcrs(*C))]
+            if is_scalar_multiple(al) and is_scalar_multiple(be_) and small(A[0] * b, A[1] * b):
+                out.insert(0, "%s o.sum %s %s %s %s 0 %s" % (cid, fmt_q(al[0][0]), X(*A, b), fmt_q(be_[0][0]), X(*B, b), X(*C, b)))
+            return tuple(out)
+        if op == "bm.scale":
+            b = t.i(); A = t.bcrs(b); sc = t.s(); C = bv.parse_out_bcrs(impl_out, b)
+            if not small(A[0] * b, A[1] * b): return None
+            return ("%s o.scale %s %s %s" % (cid, X(*A, b), sc, X(*C, b)),)
+        if op == "bm.sort_rows":
+            b = t.i(); A = t.bcrs(b); C = bv.parse_out_bcrs(impl_out, b)
+            if not small(A[0] * b, A[1] * b): return None
+            sorted_ok = all(rw[i][0] <= rw[i + 1][0] for rw in C[2] for i in range(len(rw) - 1))
+            lens_ok = [len(rw) for rw in A[2]] == [len(rw) for rw in C[2]]
+            if not (sorted_ok and lens_ok): return ("%s o.fail block-rows-not-sorted-or-length-changed" % cid,)
+            return ("%s o.unblock %s %s" % (cid, X(*A, b), X(*C, b)),)
+        if op == "bm.diagonal":
+            b = t.i(); A = t.bcrs(b); inv = t.i()
+            d = parse_out_vec(impl_out)
+            return ("%s bm.o.diagonal %d %s %d %d %s" % (cid, b, bv.fmt_bcrs(*A), inv, len(d) // (b * b), " ".join(fmt_q(x) for x in d)),)
+        if op == "bm.pointwise":
+            b = t.i(); A = t.bcrs(b); bs = t.i()
+            n, m, rows = A
+            if n % bs or m % bs: return None
+            if any(any(rw[i][0] > rw[i + 1][0] for i in range(len(rw) - 1)) for rw in rows): return None
+            return ("%s bm.o.pointwise %d %s %d %s" % (cid, b, bv.fmt_bcrs(*A), bs, crs_tokens_of_output(impl_out)),)
+        if op == "bm.specrad":
+            b = t.i(); sc = t.i(); t.i(); A = t.bcrs(b)
+            return ("%s bm.o.specrad %d %d %s %s" % (cid, b, sc, bv.fmt_bcrs(*A), impl_out.strip()),)
+        if op == "cm.transpose":
+            c = Cur(payload); a = c.crs(3)
+            return ("%s cm.o.transpose %s %s" % (cid, a, ccrs_tokens_of_output(impl_out)),)
+        if op in ("cm.saad", "cm.rmerge", "cm.product"):
+            c = Cur(payload)
+            if op == "cm.product": nt = int(c.tok())
+            a = c.crs(3); b_ = c.crs(3)
+            srt = 1 if op == "cm.rmerge" else int(c.tok())
+            if op == "cm.product" and nt > 16: srt = 1
+            return ("%s cm.o.product %s %s %d %s" % (cid, a, b_, srt, ccrs_tokens_of_output(impl_out)),)
+        if op == "cm.sum":
+            c = Cur(payload); al = c.tok(2); a = c.crs(3); be_ = c.tok(2); b_ = c.crs(3); srt = int(c.tok())
+            return ("%s cm.o.sum %s %s %s %s %d %s" % (cid, al, a, be_, b_, srt, ccrs_tokens_of_output(impl_out)),)
+        if op == "cm.scale":
+            c = Cur(payload); k = c.tok(); a = c.crs(3); sc = c.tok(2 if k == "c" else 1)
+            return ("%s cm.o.scale %s %s %s %s" % (cid, k, a, sc, ccrs_tokens_of_output(impl_out)),)
+    except Exception as e:          # malformed output: let the correspondence stage report it
+        return None
+    return None
+
+def gen_transpose_rows(rows, m):
+    """scalar transpose of expanded rows (python reference; values unchanged: the scalar adjoint is the identity)"""
+    out = [[] for _ in range(m)]
+    for i, rw in enumerate(rows):
+        for c, v in rw: out[c].append((i, v))
+    return out
+
+
+def block_run(ctx, ls, nt, env, by_id):
+    fails = []
+    shards = 16 if nt <= 2 else (6 if nt <= 4 else 2)
+    f, impl, model = diff_run(ctx, "matops_block", ls, env=env, shards=shards)
+    for x in f:
+        x["theorem"] = "correspondence drv_matops_block (%s, OMP_NUM_THREADS=%d) vs MatOps.v/MatOps2.v at BlockS QcS b / ComplexS QcS; spec theorems C08_nc_*" % (x["op"], nt)
+    fails += f
+    olines = []; k = 0
+    for l in ls:
+        cid = l.split(" ", 1)[0]
+        o = block_oracle_line(l, impl.get(cid))
+        for ol in (o or ()):
+            # several oracle lines per case: unique ids "cid#k" mapped back to the case
+            oid = "%s#%d" % (cid, k); k += 1
+            olines.append(oid + " " + ol.split(" ", 1)[1])
+    of = oracle_run(ctx, olines, "C08 dense definition on the expanded (unblocked) matrices / at block level / at ComplexS (OMP_NUM_THREADS=%d)" % nt,
+                    lambda oid: by_id[oid.split("#")[0]])
+    for x in of:
+        cid = x["case"].split(" ", 1)[0]
+        x["impl"] = impl.get(cid); x["model"] = model.get(cid)
+        x["impl_eq_model"] = (impl.get(cid) is not None and impl.get(cid) == model.get(cid))
+        x["theorem"] = "C08 %s: dense definition violated by the implementation's output for block/complex values (OMP_NUM_THREADS=%d)" % (x["op"], nt)
+    fails += of
+    return fails
+
+
 def run(ctx, cases_override=None):
     lines = cases_override or cases(ctx["tier"], ctx["seed"])
     fails = []
@@ -367,6 +574,10 @@ def run(ctx, cases_override=None):
         ls = groups[nt]
         env = {"OMP_NUM_THREADS": str(nt), "OMP_DYNAMIC": "false",
                "OMP_WAIT_POLICY": "passive", "GOMP_SPINCOUNT": "0"}   # no busy-waiting when oversubscribed
+        bls = [l for l in ls if is_block_line(l)]
+        ls = [l for l in ls if not is_block_line(l)]
+        if bls: fails += block_run(ctx, bls, nt, env, by_id)
+        if not ls: continue
         # power method: feed the model the start vector the implementation draws
         model_lines = None
         pm = [l for l in ls if l.split(" ", 2)[1] == "specrad_power"]
@@ -401,4 +612,7 @@ def run(ctx, cases_override=None):
             x["impl_eq_model"] = (impl.get(cid) is not None and impl.get(cid) == model.get(cid))
             x["theorem"] = "C08 %s: dense definition violated by the implementation's output (OMP_NUM_THREADS=%d)" % (x["op"], nt)
         fails += of
+    if BSTAT:
+        ctx["log"].append(("C08 block generators: stored blocks / scalar / diagonal / symmetric; sampled pairs / non-commuting",
+                           "%(blocks)d / %(scalar)d / %(diagonal)d / %(symmetric)d; %(pairs)d / %(noncommuting)d" % BSTAT))
     return fails
